@@ -264,12 +264,50 @@ fn real_server_outputs(ctx: &Ctx, out: &mut Out, rng: &mut Rng) {
     use crate::procs::*;
     use crate::refimpl::crypto::{Proto, RefKey};
     use std::time::Duration;
+    // seeds that appear in the project's own documentation and examples (people do run servers
+    // with them): every 64-hex-digit string found in README.md, doc/, example.cfg and src/config
+    let mut doc_seeds: Vec<Vec<u8>> = Vec::new();
+    {
+        let mut files: Vec<std::path::PathBuf> = vec![ctx.repo.join("README.md"), ctx.repo.join("example.cfg")];
+        for d in ["doc", "src/config"] {
+            if let Ok(rd) = std::fs::read_dir(ctx.repo.join(d)) {
+                files.extend(rd.flatten().map(|e| e.path()));
+            }
+        }
+        for f in files {
+            let Ok(txt) = std::fs::read_to_string(&f) else { continue };
+            let b = txt.as_bytes();
+            let mut i = 0;
+            while i < b.len() {
+                let mut j = i;
+                while j < b.len() && b[j].is_ascii_hexdigit() {
+                    j += 1;
+                }
+                if j - i == 64 {
+                    if let Some(s) = crate::prng::unhex(&txt[i..j]) {
+                        if !doc_seeds.contains(&s) {
+                            doc_seeds.push(s);
+                        }
+                    }
+                }
+                i = j.max(i + 1);
+            }
+        }
+    }
+    out.obs("documented_sample_seeds_found", doc_seeds.len() as i64);
     let n = ctx.share(112, 900); // (3 x 35 failing-start kinds + margin: every kind at least once in the quick tier)
     for i in 0..n {
         let k = i * ctx.nshards + ctx.shard;
         // one run in five uses a seed whose hex form consists of decimal digits only (YAML types
         // it as a number; every byte is 0x00..0x99 in BCD form)
-        let seed: Vec<u8> = if k % 5 == 1 { (0..32).map(|_| (rng.below(10) * 16 + rng.below(10)) as u8).collect() } else { rng.bytes(32) };
+        let seed: Vec<u8> = if k % 3 == 0 && ((k / 3) as usize) < doc_seeds.len() {
+            out.obs("real_server_runs_with_a_documented_sample_seed", 1);
+            doc_seeds[(k / 3) as usize].clone()
+        } else if k % 5 == 1 {
+            (0..32).map(|_| (rng.below(10) * 16 + rng.below(10)) as u8).collect()
+        } else {
+            rng.bytes(32)
+        };
         if k % 5 == 1 {
             out.obs("real_server_runs_with_all_digit_seed", 1);
         }
